@@ -369,6 +369,60 @@ Theorem C09_collection_leaves_live_item : forall cf st t it,
 Proof. exact gc_of_live_item_noop. Qed.
 Print Assumptions C09_collection_leaves_live_item.
 
+(* ---- finishRelayItem deletes only the item of the call the frame path looked up (A09) ----
+
+   Fix "the relay finishes (deletes) a relay item only if it still belongs to the call the frame
+   path looked up": finishRelayItem(items, id, lookedUp) -> relayItems.deleteCall.  Model: IDelete t lk
+   and IRcvEnq r rk lk carry lk = (destination relayer, destination-side id) of the looked-up item,
+   [items_delete_call] compares it with the item found. *)
+
+(* the statements of relayItems.deleteCall, the two callers of finishRelayItem with the argument
+   they pass (the item they looked up) and the callers of the three delete operations, regenerated
+   on every run, ARE the model's; and the model's deleteCall case by case *)
+Theorem C09_finish_sites_generated :
+  relay_deletecall_body = rs_dcbody_rows /\ relay_finish_sites = rs_finish_rows /\ relay_delete_sites = rs_delete_rows /\
+  (forall (st : state) (t : key) (lk : Z * Z),
+     match lookup key_eqb t (items st) with
+     | None => items_delete_call st t lk = (st, None)
+     | Some it =>
+         if (it_dest it =? fst lk) && (it_remap it =? snd lk)
+         then items_delete_call st t lk =
+                (timer_release (set_items st (remove key_eqb t (items st))) (it_tm it), Some (it, negb (it_tomb it)))
+         else items_delete_call st t lk = (st, None)
+     end).
+Proof. exact (conj gen_deletecall_body (conj gen_finish_sites (conj gen_delete_sites items_delete_call_rows))). Qed.
+Print Assumptions C09_finish_sites_generated.
+
+(* where the model's two finishes take the identity from: Receive's from the item copy it holds
+   after its lookup, handleNonCallReq's from the caller's own item *)
+Theorem C09_finish_identity_model : forall cf st room,
+  (forall r rk it s, it_tomb it || (fin_of (r_f r) && negb s) = false ->
+     exists cbs, snd (exec cf st (IRcvChk r rk (Some (it, s))) room) = cbs ++ [IRcvEnq r rk (it_dest it, it_remap it)]) /\
+  (forall r rk lk, fin_of (r_f r) = true ->
+     snd (exec cf st (IRcvEnq r rk lk) true) = IDelete rk lk :: after_sent r) /\
+  (forall r, fin_of (r_f r) = true -> exists tl, after_sent r = IDelete (r_own r) (r_d r, f_id (r_f r)) :: tl) /\
+  (forall k f ft own it s, it_tomb it || (fin_of f && negb s) = false ->
+     exists cbs r, snd (exec cf st (INcChk k f ft own (Some (it, s))) room) = cbs ++ [IRcvGet r] /\
+       r_own r = own /\ (r_d r, f_id (r_f r)) = (it_dest it, it_remap it)).
+Proof. exact finish_identity_model. Qed.
+Print Assumptions C09_finish_identity_model.
+
+(* in every fresh-id schedule a finish that is about to run passes the check: finishRelayItem is
+   the Delete it was before the fix (so every theorem above speaks about the code as it is) *)
+Theorem C09_finish_is_delete : forall cf ls st th t lk rest, run_fresh cf init ls = Some st ->
+  lookup tid_eqb th (threads st) = Some (IDelete t lk :: rest) ->
+  items_delete_call st t lk = items_delete st t.
+Proof. exact finish_is_delete. Qed.
+Print Assumptions C09_finish_is_delete.
+
+(* ... and an item of ANOTHER call found under the id (the id was re-used) is left alone: the
+   step changes nothing -- not the item, not its armed timer, not the counters *)
+Theorem C09_finish_leaves_other_call : forall cf st t lk it room,
+  lookup key_eqb t (items st) = Some it -> (it_dest it =? fst lk) && (it_remap it =? snd lk) = false ->
+  exec cf st (IDelete t lk) room = (st, []).
+Proof. exact finish_leaves_other_call. Qed.
+Print Assumptions C09_finish_leaves_other_call.
+
 (* ---- (C) schedules with re-used ids ----
 
    [run_reuse] (Proofs/RelayReuseP.v) accepts every interleaving of any number of connections,
